@@ -238,8 +238,12 @@ class Check:
             "wall_s": round(vtime.REAL_PERF() - self.t0, 2),
             "violations": len(self.violations),
         }
-        EVIDENCE.mkdir(exist_ok=True)
-        (EVIDENCE / f"{self.prop}.json").write_text(json.dumps(ev, indent=1, default=str))
+        # runs against a scratch repository (VERIF_REPO) or without the proof stage (--no-proof) are development
+        # runs: their evidence must never replace the registered check's evidence file
+        dev = bool(os.environ.get("VERIF_REPO")) or getattr(self, "skip_proof", False)
+        out_dir = (WORK / "evidence_dev") if dev else EVIDENCE
+        out_dir.mkdir(parents=True, exist_ok=True)
+        (out_dir / f"{self.prop}.json").write_text(json.dumps(ev, indent=1, default=str))
         return 1 if self.violations else 0
 
     def proof_broken(self, proof: dict, found_input: bool):
